@@ -1,4 +1,5 @@
 import Librfn.Model.RingConc
+import Librfn.Gen.Skeleton
 /-! C05 — the lock-free ring buffer delivers each byte once, in order, for one producer and one consumer,
 under every interleaving (theorems about `Model/RingConc.lean`; kernel-only).
 
@@ -474,6 +475,47 @@ theorem get_loads_oldest_unread {s : St} {r : Nat} (hi : Inv s) (hc : s.c = .c2 
   simp only [CInv, hc] at hci
   have := hi.content s.recv.length (Nat.le_refl _) hci.2.2
   rw [hci.1, hi.ri]; exact this
+
+/-! ### Tie S: the model's atomic-operation skeleton is the one extracted from the current source
+
+`Gen.Skeleton.ringbuf` is regenerated from `ringbuf.c` / `ringbuf.h` by `tools/skeleton.py` on every run.
+These obligations fail when a memory order is weakened, an index field stops being `_Atomic`, an atomic call is
+replaced by a plain access, a fence is dropped, or a payload access moves across the publishing store. -/
+
+open Librfn.Skeleton in
+/-- access sites (kind, object, memory order, branch context) of every function of ringbuf.c, in order, and
+the declared types of `ringbuf_t`'s fields, equal the table the model was written against -/
+theorem skeleton_matches_ring : Librfn.Gen.Skeleton.ringbuf = Librfn.Model.RingConc.skeleton := by decide
+
+/-- C07 (a): every atomic operation and fence of ringbuf.c is `seq_cst` -/
+theorem ring_ord_all_seqcst : Librfn.Gen.Skeleton.ringbuf.allSeqCst = true := by decide
+
+/-- C07 (a): both indices are declared `_Atomic` and are accessed only through atomic operations -/
+theorem ring_fields_atomic :
+    Librfn.Gen.Skeleton.ringbuf.fieldAtomic "ringbuf_t" "readi" = true ∧
+    Librfn.Gen.Skeleton.ringbuf.fieldAtomic "ringbuf_t" "writei" = true ∧
+    Librfn.Gen.Skeleton.ringbuf.onlyAtomicAccess ["rb->readi", "rb->writei"] = true := by decide
+
+/-- position of the first site of a function that satisfies `p` -/
+def siteIdx (u : Librfn.Skeleton.CUnit) (fn : String) (p : Librfn.Skeleton.Site → Bool) : Option Nat :=
+  match u.funcs.find? (·.name == fn) with
+  | none => none
+  | some f => let i := f.sites.findIdx p; if i < f.sites.length then some i else none
+
+open Librfn.Skeleton in
+/-- the payload store of `ringbuf_put` comes after its load of `readi` and before its store of `writei`; the
+payload load of `ringbuf_get` comes after its load of `writei` and before its store of `readi`
+(stated on the extracted table, unconditional sites only) -/
+theorem ring_payload_inside_publish :
+    (∃ a b c, siteIdx Librfn.Gen.Skeleton.ringbuf "ringbuf_put" (fun s => s.kind == .load && s.obj == "rb->readi") = some a ∧
+              siteIdx Librfn.Gen.Skeleton.ringbuf "ringbuf_put" (fun s => s.kind == .plainWrite && s.obj == "rb->bufp[]" && s.ctx == []) = some b ∧
+              siteIdx Librfn.Gen.Skeleton.ringbuf "ringbuf_put" (fun s => s.kind == .store && s.obj == "rb->writei" && s.ctx == []) = some c ∧
+              a < b ∧ b < c) ∧
+    (∃ a b c, siteIdx Librfn.Gen.Skeleton.ringbuf "ringbuf_get" (fun s => s.kind == .load && s.obj == "rb->writei") = some a ∧
+              siteIdx Librfn.Gen.Skeleton.ringbuf "ringbuf_get" (fun s => s.kind == .plainRead && s.obj == "rb->bufp[]" && s.ctx == []) = some b ∧
+              siteIdx Librfn.Gen.Skeleton.ringbuf "ringbuf_get" (fun s => s.kind == .store && s.obj == "rb->readi" && s.ctx == []) = some c ∧
+              a < b ∧ b < c) := by
+  refine ⟨⟨3, 5, 7, ?_⟩, ⟨1, 3, 7, ?_⟩⟩ <;> decide
 
 /-! ### Non-vacuity: concrete states that meet the hypotheses above -/
 
